@@ -92,15 +92,20 @@ def hPbMarshal : List String → String → Res
   | [_kind, ver, _payload, body, cap, mode], impl => do
     let ver ← pVer ver; let body ← pBytes body; let cap ← pInt cap; let mode ← pNat mode
     let capN := if cap < 0 then 32 + body.length + 1000 else cap.toNat
-    let model := match pbMarshal (mode == 1) capN ver body with
+    -- mode 2: every write is taken in full, but the write during which the count reaches `cap` reports an
+    -- error (a legal `(len p, err)` answer); later writes succeed
+    let scripted := pbMarshalScript ⟨32, decide (capN ≤ 32)⟩ ⟨body.length, decide (capN ≤ 32 + body.length)⟩ ver body
+    let model := match (if mode == 2 then scripted else pbMarshal (mode == 1) capN ver body) with
       | none => "PANIC"
       | some (n, failed, bytes) => s!"{n},{if failed then "WErr" else "nil"},{showBytes bytes},{32 + body.length},32"
     -- spec: the frame is version padded to 16, le64 32, le64 |body|, body; count/bytes = what the writer took
     let frame := ver ++ List.replicate (16 - ver.length) 0 ++ le64 32 ++ le64 body.length ++ body
     let total := 32 + body.length
-    let k := if capN ≥ total then total
+    let k := if mode == 2 then (if capN ≤ 32 then 32 else total)
+             else if capN ≥ total then total
              else if mode == 1 then (if capN < 32 then 0 else 32) else capN
-    let spec := s!"{k},{if capN ≥ total then "nil" else "WErr"},{showBytes (frame.take k)},{total},32"
+    let failed := if mode == 2 then capN ≤ total else capN < total
+    let spec := s!"{k},{if failed then "WErr" else "nil"},{showBytes (frame.take k)},{total},32"
     some (model, verdictEq spec impl)
   | _, _ => none
 
